@@ -136,7 +136,7 @@ def run_batch(name, progs, rng, tapes=3, histlen=10, budget=120, want_tmp=False,
                     try:
                         src = structcheck.src_stmts(p["body"]) + [{"s": "return"}]   # render_func appends `return nil`
                         if (p["pkg"], p["name"]) in trees:
-                            struct_entries.append((p["name"], src, ("tree", structcheck.tgt_sexp(trees[(p["pkg"], p["name"])]))))
+                            struct_entries.append((p["name"], src, ("tree", structcheck.tgt_sexp(structcheck.canon_iters(trees[(p["pkg"], p["name"])])))))
                         elif compile_status.get(key, "").startswith("compile-panic(rewrite)"):
                             struct_entries.append((p["name"], src, ("rejected",)))
                     except structcheck.Unknown as ex:
